@@ -6,11 +6,15 @@ use crate::{analysis::Violation, scenario::Scenario, world::RunOutput};
 pub mod c01;
 pub mod c02;
 pub mod c03;
+pub mod c04;
+pub mod c07;
+pub mod pw;
 pub mod c08;
 pub mod c11;
 pub mod c14;
 pub mod c15;
 pub mod c16;
+pub mod c17;
 
 #[derive(Default, Debug)]
 pub struct OracleResult {
